@@ -28,10 +28,18 @@ struct ClassicFam {
   static const double* mixed_cuts() { static const double c[5] = {0.0, 0.4, 0.7, 0.9, 1.0}; return c; }
 };
 
+static std::string FN() { return ClassicFam::name(); }
 const char* property_id() { return "C08"; }
 unsigned case_timeout_s() { return 3000; }
 void final_report() {}
 
+// the non-arithmetic item variants (-DC08_ITEM_STRING / -DC08_ITEM_SELFMOVE) run a reduced case list: no f >= 15 scenarios,
+// sampled cells with n = 1e4 only
+#ifdef C08_ITEM_NONARITH
+static const bool VARIANT = true;
+#else
+static const bool VARIANT = false;
+#endif
 // Micro down-sampling cell: the stride offset of zip_buffer_with_stride comes from random_utils::rand, which cannot be
 // scripted, so its fairness is tested statistically where it dominates the variance: a small source sketch (k_src = s*k_tgt,
 // a few full buffers) merged with a small target; many cheap trials; z-test of the mean inclusive rank at every stream value.
@@ -43,7 +51,7 @@ static void micro_downsample_cell(const Micro& m, Rng& r) {
   const std::string ctx = "classic sampled micro-downsample k_tgt=" + std::to_string(m.k_tgt) + " k_src=" + std::to_string(k_src) + " n_src=" + std::to_string(n_src) +
     " n_tgt=" + std::to_string(n_tgt) + " direction=" + (m.direction == 0 ? "tgt.merge(src)" : "src.merge(tgt)") + " trials=" + std::to_string(m.trials);
   describe(ctx);
-  const std::string kp = "classic|sampled|micro-downsampling-merge|";
+  const std::string kp = FN() + "|sampled|micro-downsampling-merge|";
   std::vector<float> vals(static_cast<size_t>(n));
   for (int i = 0; i < n; ++i) vals[static_cast<size_t>(i)] = static_cast<float>(i);
   r.shuffle(vals);
@@ -54,14 +62,14 @@ static void micro_downsample_cell(const Micro& m, Rng& r) {
     random_utils::random_bit.seed(static_cast<uint32_t>(sd));
     random_utils::rand.seed(sd ^ 0x9e3779b97f4a7c15ULL);
     SK tgt(static_cast<uint16_t>(m.k_tgt)), src(static_cast<uint16_t>(k_src));
-    for (int i = 0; i < n_tgt; ++i) tgt.update(vals[static_cast<size_t>(i)]);
-    for (int i = n_tgt; i < n; ++i) src.update(vals[static_cast<size_t>(i)]);
+    for (int i = 0; i < n_tgt; ++i) tgt.update(c08::enc(vals[static_cast<size_t>(i)]));
+    for (int i = n_tgt; i < n; ++i) src.update(c08::enc(vals[static_cast<size_t>(i)]));
     SK* res;
     if (m.direction == 0) { tgt.merge(src); res = &tgt; } else { src.merge(std::move(tgt)); res = &src; }
     VF_CHECK(res->get_n() == static_cast<uint64_t>(n), kp + "n-not-true-n", ctx + " get_n=" + std::to_string(res->get_n()));
-    if (res->get_k() == m.k_tgt) count("classic_smp_micro_trials_downsampled");   // (an exact-mode target adopts the larger k instead: no stride drawn)
-    for (int v = 0; v < n; ++v) acc[static_cast<size_t>(v)].add(res->get_rank(static_cast<float>(v), true));
-    count("classic_smp_micro_trials");
+    if (res->get_k() == m.k_tgt) count(FN() + "_smp_micro_trials_downsampled");   // (an exact-mode target adopts the larger k instead: no stride drawn)
+    for (int v = 0; v < n; ++v) acc[static_cast<size_t>(v)].add(res->get_rank(c08::enc(static_cast<float>(v)), true));
+    count(FN() + "_smp_micro_trials");
   }
   const double floor_sigma = 0.5 / n;
   for (int v = 0; v < n; ++v) {
@@ -72,8 +80,8 @@ static void micro_downsample_cell(const Micro& m, Rng& r) {
     VF_CHECK(dev <= 6.5 * se + 1e-12, kp + "mean-estimated-rank-deviates-from-true-rank",
              ctx + " v=" + str(v) + " true_rank=" + str(tr) + " mean_est=" + str(w.mean) + " sample_sd=" + str(std::sqrt(w.var())) + " se_used=" + str(se) + " z=" + str(dev / se));
   }
-  count("classic_smp_micro_cells");
-  count("classic_smp_micro_cells_stride_" + std::to_string(m.stride));
+  count(FN() + "_smp_micro_cells");
+  count(FN() + "_smp_micro_cells_stride_" + std::to_string(m.stride));
   sig(mix64(mix64(static_cast<uint64_t>(m.k_tgt), static_cast<uint64_t>(m.stride)), mix64(static_cast<uint64_t>(n_src), static_cast<uint64_t>(n_tgt * 2 + m.direction))));
   if (getenv("C08_VERBOSE")) fprintf(stderr, "%s ok\n", ctx.c_str());
 }
@@ -86,10 +94,11 @@ static std::vector<Micro> micros(bool T) {
     v.push_back(Micro{k, stride, 2, 5, 2 * k + 3, 1, tr});
     if (T) v.push_back(Micro{k, stride, 5, 1, 2 * k * 3, 1, tr});
   }
+  if (VARIANT) v.resize(6);
   return v;
 }
 
-static const int NEXH_Q = 48, NEXH_T = 480;
+static const int NEXH_Q = VARIANT ? 28 : 48, NEXH_T = VARIANT ? 160 : 480;
 static std::vector<c08::Cell> cells(bool T) {
   std::vector<c08::Cell> v;
   const int tr = T ? 2000 : 160;
@@ -100,6 +109,7 @@ static std::vector<c08::Cell> cells(bool T) {
   v.push_back(c08::Cell{16, 10000, 3, 0, tr});
   v.push_back(c08::Cell{128, 10000, 3, 2, tr});
   if (T) { v.push_back(c08::Cell{2, 100000, 1, 0, tr}); v.push_back(c08::Cell{32, 100000, 2, 2, tr}); v.push_back(c08::Cell{1024, 100000, 1, 1, 1000}); }
+  if (VARIANT) { std::vector<c08::Cell> w; for (auto c : v) if (c.n == 10000) { c.trials = T ? 400 : 60; w.push_back(c); } return w; }
   return v;
 }
 uint64_t num_cases(bool thorough) { return static_cast<uint64_t>(thorough ? NEXH_T : NEXH_Q) + cells(thorough).size() + micros(thorough).size(); }
@@ -108,6 +118,7 @@ void run_case(uint64_t idx, Rng& r) {
   const bool T = G().thorough();
   const uint64_t nexh = static_cast<uint64_t>(T ? NEXH_T : NEXH_Q);
   if (idx < nexh) {
+    if (VARIANT) idx += T ? 32 : 8;   // skip the heaviest windows
     const bool want_merge = (idx % 2) == 1;
     int fmin, fmax;
     if (T) {
@@ -122,8 +133,10 @@ void run_case(uint64_t idx, Rng& r) {
     c08::exhaustive_case<ClassicFam>(r, want_merge, fmin, fmax);
   } else {
     const auto cs = cells(T);
-    if (idx - nexh < cs.size()) c08::sampled_cell_eps<ClassicFam>(cs[idx - nexh], r);
-    else micro_downsample_cell(micros(T)[idx - nexh - cs.size()], r);
+    try {
+      if (idx - nexh < cs.size()) c08::sampled_cell_eps<ClassicFam>(cs[idx - nexh], r);
+      else micro_downsample_cell(micros(T)[idx - nexh - cs.size()], r);
+    } catch (const std::exception& e) { checked(); fail(FN() + "|sampled|exception-in-valid-usage", G().cur_desc + " what=" + e.what()); }
   }
 }
 
